@@ -241,6 +241,9 @@ func genCases(rng *vh.Rng, seq *int, withWitness bool) []*hcase {
 	for i := 0; i < 110; i++ {
 		cases = append(cases, genRetention(rng, seq))
 	}
+	for i := 0; i < 45; i++ {
+		cases = append(cases, genRetentionNames(rng, seq))
+	}
 	for i := 0; i < 70; i++ {
 		cases = append(cases, genRead(rng, seq))
 	}
@@ -567,18 +570,27 @@ func main() {
 		}
 		runCases(env, rep, cases)
 	} else {
-		runCases(env, rep, genCases(rng, &seq, true))
-		histChildren(env, rep, "real", 1)
-		histChildren(env, rep, "zone", len(zones))
+		stage("histories", func() { runCases(env, rep, genCases(rng, &seq, true)) })
+		stage("real-clock child", func() { histChildren(env, rep, "real", 1) })
+		stage("zone children", func() { histChildren(env, rep, "zone", len(zones)) })
 		if env.Thorough {
-			histChildren(env, rep, "hist", 10)
+			stage("history children", func() { histChildren(env, rep, "hist", 10) })
 		}
 	}
 	if runConc {
-		concStage(env, rep, rng)
-		faultStage(env, rep, rng)
+		stage("concurrent", func() { concStage(env, rep, rng) })
+		stage("fault", func() { faultStage(env, rep, rng) })
 	}
+	rep.Extra["stage_seconds"] = stageSecs
 	rep.Write(env.Out)
+}
+
+var stageSecs = map[string]float64{}
+
+func stage(name string, f func()) {
+	t := time.Now()
+	f()
+	stageSecs[name] = float64(time.Since(t).Milliseconds()) / 1000
 }
 
 func min(a, b int) int {
